@@ -34,7 +34,7 @@ for ident, r in sorted(res.items()):
         "confirmed_by_me": {
             "how": "tools/seedtest.py: fresh scratch worktree of /repo HEAD, git apply patch.diff; full test suite; demo.py on patched and on clean tree",
             "test_suite_with_patch": r.get("tests"), "demo_exit_patched": r.get("demo_patched_rc"), "demo_exit_clean": r.get("demo_clean_rc")},
-        "checks_run": "every registered quick check, from a scratch copy of /verif with VERIF_REPO=<patched worktree>",
+        "checks_run": ("every registered quick check" if len(r.get("checks", {})) > 3 else "the quick check of the property the change targets (%s)" % ", ".join(sorted(r.get("checks", {})))) + ", from a scratch copy of /verif with VERIF_REPO=<patched worktree>",
         "detected_by": sorted(det), "detected_with_failing_input_by": with_input,
         "target_property_detected": prop in det,
         "target_property_detected_with_input": prop in with_input,
